@@ -134,3 +134,47 @@ prop("C15",
           "text over the syntax alphabet); distinct = distinct text; non-trivial = at least 10 bytes",
      assumptions=["cells outside the modelled float grammar are verdict O (reported in evidence as outside_model)"],
      note=TA_NOTE)
+
+CONV_NOTE = ("Trusted: Coq kernel + vm_compute; correspondence harness (session generator as Go values, database dumper). Oracle (assumed, supplied per case by the "
+             "harness's own geodesic.WGS84.Inverse calls): the WGS-84 distance between successive fix positions. Modelled not verified: gonum "
+             "interp.PiecewiseLinear (ported), math.Round, Duration.Seconds, time.Time arithmetic as integer nanoseconds in UTC.")
+
+prop("C03",
+     axioms="reals",
+     design_ref="DESIGN.md section 5 C03",
+     technique="Rocq proof by induction over laps/rows (lap selection, contiguous fix ids, fix = first row + GPS-updated rows, distance = running sum) + in-Coq correspondence of the whole converted database",
+     text="Theorems about the Gallina port of TrackAddict.LapTimer/lapTimerLap/lapTimerFix for every session, option set and geodesic oracle: one output lap "
+          "per middle source lap with its number/duration/track/tags/note/vehicle, fix ids id..id+n-1 without gaps across laps, a lap's fixes = first row "
+          "then exactly the GPS-updated rows in order with offsets and dates of their rows, distance of fix k = running sum of the oracle distances, overall = "
+          "round1dp(last).  Tied to the code by comparing every field of the converted database bit for bit on generated sessions.",
+     rule="one case = one session built as Go values (0-6 laps, 0-9 rows per lap, GPS-update pattern random incl. none, optional accel/OBD blocks with random "
+          "channel subsets) x option set (track, vehicle override, tags, note, differential, positioning, 20% start date, predictor on/off); distinct = distinct "
+          "JSON input; non-trivial = at least 3 laps",
+     assumptions=["geodesic distance is an oracle: the property's 'true WGS-84 distance' is whatever geodesic.WGS84.Inverse returns for the pair the model says"],
+     note=CONV_NOTE)
+
+prop("C11",
+     axioms="reals",
+     design_ref="DESIGN.md section 5 C11",
+     technique="Rocq proof (sessions without OBD / without fresh readings convert; default predictor = linear interpolant; disabled = untouched) + in-Coq correspondence of every fix's OBD block",
+     text="Theorems about the port of Session.PredictOBD and gonum's PiecewiseLinear: logs with no OBD block or no fresh reading give Ok and unchanged records, "
+          "interpolation disabled leaves records untouched, the default predictor strictly between two knots is y_i + slope_i (x - x_i) with slope_i the neighbours' "
+          "difference quotient, and at a knot the reading itself.  Tied to the code by comparing the OBD channels of every output fix (and the outcome class) on "
+          "sessions with every kind of GPS/OBD update interleaving and channel subset.",
+     rule="one case = one session of 3-5 laps x 2-10 rows with random (GPS update, OBD update) flags, channel subsets (all six 40%, random otherwise), OBD mode "
+          "(updates / never updated / no OBD block), predictor (default 80%, nil 20%); distinct = distinct JSON input; non-trivial = at least 3 laps",
+     assumptions=["fresh readings at equal or decreasing time stamps make gonum panic; such sessions are outside the property's domain and verdict O",
+                  "only the default (piecewise linear) and nil predictors are modelled; other gonum predictors are not exercised"],
+     note=CONV_NOTE)
+
+prop("C12",
+     axioms="reals",
+     design_ref="DESIGN.md section 5 C12",
+     technique="Rocq proof that conversion with a start date equals conversion without it with all dates shifted by one constant (for all sessions and dates) + in-Coq correspondence of all dates",
+     text="C12_constant_shift: for every list of laps, option set and start date D the database with D is the database without D with every lap and fix date moved "
+          "by delta = D - UTC-midnight(first converted row) and nothing else changed; the first row lands on D with its time of day; differences preserved; no option = "
+          "no shift.  Tied to the code by comparing every date on sessions straddling UTC midnight, with D in {none, logged day, day before/after, random}, rows in non-UTC zones.",
+     rule="one case = one session (3-6 laps, starting up to 40 s before a UTC midnight 70% of the time, rows carrying location offsets 0/+10h/-8h/+14h/+5:30, 15% empty "
+          "first timed lap) x start date (none; then one of logged day / next day / previous day / random 1970-2067); distinct = distinct JSON input; non-trivial = at least 3 laps",
+     assumptions=["time.Time is modelled as integer nanoseconds since the epoch in UTC; the location attached to a time does not matter because the code calls .UTC()"],
+     note=CONV_NOTE)
